@@ -31,6 +31,9 @@ type faultRelay struct {
 	stall  atomic.Bool
 	refuse atomic.Bool
 	freeze atomic.Bool // stop reading altogether: the peers' TCP buffers fill up (black hole)
+
+	divertTo   string // the next divertLeft connections go to this address instead of the target
+	divertLeft int
 }
 
 type acceptRec struct {
@@ -44,6 +47,7 @@ type relayPair struct {
 	ender          atomic.Int32 // who ended the connection first: 0 nobody yet, 1 the client side, 2 the server side, 3 the relay (cut)
 	endedAt        atomic.Int64
 	once           sync.Once
+	frozen         atomic.Bool  // this connection alone is a black hole (nothing is read, no close is passed on)
 	clientGone     atomic.Int64 // frozen relay only: when the kernel showed that the client had closed / reset its end
 	serverGone     atomic.Int64
 	firstUp        atomic.Int32 // first byte the client wrote (frp message type when neither tcpMux nor TLS is used)
@@ -123,7 +127,29 @@ func (r *faultRelay) loop(l net.Listener) {
 			continue
 		}
 		go func() {
-			s, err := net.DialTimeout("tcp", r.target, 2*time.Second)
+			target := r.target
+			var first []byte
+			r.mu.Lock()
+			pending := r.divertLeft > 0
+			r.mu.Unlock()
+			if pending {
+				// only logins are diverted: without tcpMux work and visitor connections ('w', 'v') arrive here as well
+				b := make([]byte, 1)
+				_ = c.SetReadDeadline(time.Now().Add(3 * time.Second))
+				if n, _ := c.Read(b); n == 1 {
+					first = b
+				}
+				_ = c.SetReadDeadline(time.Time{})
+				if len(first) == 1 && first[0] != 'w' && first[0] != 'v' {
+					r.mu.Lock()
+					if r.divertLeft > 0 {
+						r.divertLeft--
+						target = r.divertTo
+					}
+					r.mu.Unlock()
+				}
+			}
+			s, err := net.DialTimeout("tcp", target, 2*time.Second)
 			if err != nil {
 				r.note(now, true)
 				c.Close()
@@ -140,6 +166,14 @@ func (r *faultRelay) loop(l net.Listener) {
 			}
 			r.pairs[p] = struct{}{}
 			r.mu.Unlock()
+			if len(first) == 1 {
+				p.firstUp.Store(int32(first[0]))
+				if _, err := s.Write(first); err != nil {
+					c.Close()
+					s.Close()
+					return
+				}
+			}
 			go r.pump(p, c, s, true)
 			go r.pump(p, s, c, false)
 		}()
@@ -155,7 +189,7 @@ func (r *faultRelay) note(t int64, refused bool) {
 func (r *faultRelay) pump(p *relayPair, from, to net.Conn, up bool) {
 	buf := make([]byte, 32*1024)
 	for {
-		if r.freeze.Load() {
+		if r.freeze.Load() || p.frozen.Load() {
 			// black hole: do not read at all (the peer's send buffer fills up, its close is not passed on)
 			if p.ender.Load() != 0 {
 				break
@@ -240,6 +274,34 @@ func (r *faultRelay) ResetAll() {
 		p.server.Close()
 		p.client.Close()
 	}
+}
+
+// FreezeLive turns every live connection into a black hole (new connections pass normally): the peers get neither
+// data nor FIN / RST from each other any more.
+func (r *faultRelay) FreezeLive() []*relayPair {
+	ps := r.Live()
+	for _, p := range ps {
+		p.frozen.Store(true)
+	}
+	return ps
+}
+
+// CutPairs closes the given connections.
+func (r *faultRelay) CutPairs(ps []*relayPair) {
+	for _, p := range ps {
+		if p.ender.CompareAndSwap(0, 3) {
+			p.endedAt.Store(h.Now())
+		}
+		p.client.Close()
+		p.server.Close()
+	}
+}
+
+// Divert sends the next n connections to addr instead of the target.
+func (r *faultRelay) Divert(addr string, n int) {
+	r.mu.Lock()
+	r.divertTo, r.divertLeft = addr, n
+	r.mu.Unlock()
 }
 
 // Live returns the currently relayed connections.
